@@ -82,7 +82,7 @@ def shards(tier, with_linkify_stub=True):
         sh.append(("atoms", "emph", f, 7 if thorough else 6, 1))
     for f in S.STRIKE_ATOMS:
         sh.append(("atoms", "strike", f, 7 if thorough else 6, 1))
-    for f in S.SEP_LEAVES:
+    for f in S.SEP_LEAVES + S.DEF_LEAVES:
         sh.append(("sep", f))
     # configuration neighbourhoods on the core space
     cfgs = C.neighbourhood(2 if thorough else 1)
